@@ -120,11 +120,11 @@ func ruleC01(r *Report) {
 	r.NotDecided("that goxmldsig's Validate is correct; parser differentials not caught by the round-trip validator; that the configured certificates are the IdP's")
 	r.Rule("C01.sigtoken", "the 'signature not required' token is introduced only under the nil edge of the signature validator applied to an enclosing element, forwarded unchanged otherwise, and the assertion is unmarshalled only under (token == required => validator(el) == nil) for the very element that is unmarshalled", 4)
 	r.Rule("C01.sameel", "elements handed to an unmarshal helper are the verified element itself, results of the namespace-aware finders, Root() of a validated document, or the decrypt step's result — never etree path queries", 5)
-	r.Rule("C01.validate-result", "the signature validator succeeds only under the nil edge of dsig Validate (or by delegating to the configured SignatureVerifier hook); 'not present' is returned only when no Signature child exists", 2)
-	r.Rule("C01.roots", "trusted roots derive only from SP configuration: signing-use (or unspecified-use) KeyDescriptors of IDPMetadata, the fingerprint-matched certificate, or the pinned certificate", 5)
+	r.Rule("C01.validate-result", "the signature validator succeeds only under the nil edge of dsig Validate (or by delegating to the configured SignatureVerifier hook); 'not present' is returned only when no Signature child exists", 1)
+	r.Rule("C01.roots", "trusted roots derive only from SP configuration: signing-use (or unspecified-use) KeyDescriptors of IDPMetadata, the fingerprint-matched certificate, or the pinned certificate", 3)
 	r.Rule("C01.nsmatch", "the namespace-aware finder returns a child only if both its tag and its resolved namespace equal the requested ones", 1)
-	r.Rule("C01.xrv", "every parse of peer-provided bytes on the consuming paths is dominated by the nil edge of the round-trip validator on the same bytes (own serialisations exempt by provenance)", 6)
-	r.Rule("C01.samepath", "decrypted assertions reach the same assertion parser with the caller's own request IDs, time and signature token", 2)
+	r.Rule("C01.xrv", "every parse of peer-provided bytes on the consuming paths is dominated by the nil edge of the round-trip validator on the same bytes (own serialisations exempt by provenance)", 4)
+	r.Rule("C01.samepath", "decrypted assertions reach the same assertion parser with the caller's own request IDs, time and signature token", 1)
 
 	checkSigToken(r, m, sr)
 	checkSameEl(r, m, sr)
@@ -134,7 +134,7 @@ func ruleC01(r *Report) {
 	checkXRV(r, sc, "C01.xrv", sortedFns(p, sc.Consume))
 	checkSamePath(r, m, sr)
 	checkReturned(r, m, "C01.sigtoken")
-	r.Rule("C01.decoder", "UnmarshalXML methods of schema types decode only through Decoder.DecodeElement into an alias struct (no hand-written token loops: encoding/xml itself joins character data across comments, a token loop need not)", 10)
+	r.Rule("C01.decoder", "UnmarshalXML methods of schema types decode only through Decoder.DecodeElement into an alias struct (no hand-written token loops: encoding/xml itself joins character data across comments, a token loop need not)", 7)
 	checkDecoderDiscipline(r, sc, "C01.decoder")
 }
 
